@@ -298,7 +298,11 @@ var utf8Bits = [][]byte{[]byte("é"), []byte("中"), []byte("\xe9"), []byte("\xc
 	[]byte("\u3000"), []byte("\u3000"), []byte("\u00a0"), []byte("\u2003"), []byte("\ufeff"), []byte("\u200b"), []byte("e\u0301"), []byte("\u2028")}
 
 func genBytesBiased(rt *rapid.T, label string, l int, pad byte) []byte {
-	if l > 0 && rapid.IntRange(0, 13).Draw(rt, label+".dict") == 13 {
+	dictOdds := 13
+	if len(Dict.Novel) > 0 {
+		dictOdds = 4 // the tree under test has constants the pinned tree does not: try them often
+	}
+	if l > 0 && rapid.IntRange(0, dictOdds).Draw(rt, label+".dict") == dictOdds {
 		// a constant harvested from the source of the tree under test, fitted to the length
 		if w, ok := dictWord(rt, label); ok {
 			if len(w) >= l {
